@@ -349,7 +349,10 @@ func VerifC14Outage() {
 	store := pNewStore()
 	var fs hackpadfs.FS
 	var err error
-	if kind := verifChoice("store-kind", 3); kind == 2 {
+	if kind := verifChoice("store-kind", 4); kind == 3 {
+		verifTag("store", "transaction-store-refusing-to-begin")
+		fs, err = keyvalue.NewFS(c14TxnStore{store, new(sync.Mutex), false, true})
+	} else if kind == 2 {
 		verifTag("store", "atomic-transaction-store")
 		fs, err = keyvalue.NewFS(c14TxnStore{store, new(sync.Mutex), true, false})
 	} else if kind == 1 {
